@@ -307,18 +307,18 @@ package starlark
 //@ func Iterable.Iterate
 //@   prop C06
 //@   impls
-//@   modifies List.itercount, hashtable.itercount, g_open
+//@   modifies List.itercount, hashtable.itercount, proto.MapField.itercount, proto.RepeatedField.itercount, g_open
 //@   ensures result != nil && g_open == old(g_open) + 1
 //@   ensures only(List.itercount, self) && only(hashtable.itercount, sub(self, 0))
 //@ func Iterator.Done
 //@   prop C06
-//@   modifies List.itercount, hashtable.itercount, g_open
+//@   modifies List.itercount, hashtable.itercount, proto.MapField.itercount, proto.RepeatedField.itercount, g_open
 //@   ensures g_open == old(g_open) - 1
 //@ func Iterator.Next
 //@   modifies *p
 //@ func Iterate
 //@   prop C06
-//@   modifies List.itercount, hashtable.itercount, g_open
+//@   modifies List.itercount, hashtable.itercount, proto.MapField.itercount, proto.RepeatedField.itercount, g_open
 //@   ensures result != nil ==> g_open == old(g_open) + 1 && only(List.itercount, x) && only(hashtable.itercount, sub(x, 0))
 //@   ensures result == nil ==> g_open == old(g_open) && unchanged(List.itercount) && unchanged(hashtable.itercount)
 //@   ensures result == nil <==> !typeis(x, Iterable)
@@ -608,3 +608,9 @@ package starlark
 //@ reads_not [C03] hashtable.items : hashString, seed, hash/maphash.*
 //@ reads_not [C03] keyIterator.Next : hashString, seed, hash/maphash.*
 //@ reads_not [C03] hashtable.first : hashString, seed, hash/maphash.*
+
+// a decimal field index is never negative (it is used to index the argument tuple)
+//@ func decimal
+//@   prop C02 C13
+//@   nopanic
+//@   ensures ok ==> x >= 0
